@@ -148,6 +148,51 @@ def r14_1(ctx):
     ctx.check("reset() restores the three state holders", {c for c, _ in R} == set(S), str(sorted(S)), str(sorted({c for c, _ in R})), fn_where(idx, idx.func("RZILTransformer.reset")))
 
 
+@rule("R14.6", "C14", "reset() is unconditional and reaches the state it is meant to reset: every path performs all resets; no other object keeps a private reference to state that reset() replaces; long-lived parameters render alike on every read", min_instances=6)
+def r14_6(ctx):
+    idx = get_index(ctx.env)
+    fr = idx.func("RZILTransformer.reset")
+    ps = [p for p in paths_of(fr.node) if p.outcome in ("return", "fallthrough", "end") or p.outcome not in ("raise",)]
+    ctx.need(ps, "reset(): no path found")
+    # what the unconditional path of today's reset() calls is the obligation of every path
+    all_calls = [[call_name(e.node) for e in p.events if e.kind == "call"] for p in ps]
+    union = sorted({c for cs in all_calls for c in cs if c})
+    ctx.need(len(union) >= 3, f"reset() performs only {union}")
+    for c in union:
+        missing = [p.guard_text()[:60] or "(unconditional path)" for p, cs in zip(ps, all_calls) if c not in cs]
+        ctx.check(f"every path through reset() calls {c}", not missing, "called on every path", f"skipped on the path under {missing[:2]}", fn_where(idx, fr))
+    must = {"self.ext.reset_flags", "self.il_ops_holder.clear"}
+    ctx.check("reset() resets the attribute flags and the operand holder", must <= set(union) or any("ILOpsHolder" in (c or "") for c in union) and "self.ext.reset_flags" in union,
+              "ext.reset_flags() and a cleared (or fresh) holder", str(union), fn_where(idx, fr), nontrivial=False)
+    # aliasing: an attribute that some method other than the constructor re-binds must not be cached in another object
+    rebound = {}
+    for fi in idx.funcs.values():
+        if fi.name == "__init__" or fi.cls is None:
+            continue
+        for n in ast.walk(fi.node):
+            if isinstance(n, ast.Assign):
+                for t in n.targets:
+                    if isinstance(t, ast.Attribute) and isinstance(t.value, ast.Name) and t.value.id == "self" and not isinstance(n.value, ast.Constant):
+                        rebound.setdefault((fi.cls, t.attr), []).append(fi)
+    cached = []
+    for fi in idx.funcs.values():
+        if fi.cls is None:
+            continue
+        for n in ast.walk(fi.node):
+            if isinstance(n, ast.Assign) and isinstance(n.value, ast.Attribute) and not (isinstance(n.value.value, ast.Name) and n.value.value.id == "self"):
+                for t in n.targets:
+                    if isinstance(t, ast.Attribute) and isinstance(t.value, ast.Name) and t.value.id == "self":
+                        owners = [c for (c, a) in rebound if a == n.value.attr and c != fi.cls]
+                        if owners:
+                            cached.append((fi, n, owners))
+    ctx.check("no object caches state that its owner later replaces", not cached, "objects reach shared state through its owner (self.transformer.il_ops_holder)",
+              "; ".join(f"{fi.qual}:{n.lineno} keeps {U(n.value)} although {o[0]}.{n.value.attr} is re-bound by {sorted({f.qual for f in rebound[(o[0], n.value.attr)]})}" for fi, n, o in cached[:2]) or "ok",
+              fn_where(idx, cached[0][0]) if cached else "rzilcompiler/")
+    from .c12 import external_parameter_checks
+
+    external_parameter_checks(ctx)
+
+
 def is_shared_transformer_call(n, name):
     return isinstance(n, ast.Call) and call_name(n) == f"self.transformer.{name}"
 
